@@ -251,7 +251,8 @@ Qed.
 Definition P_skip_ex (q : req) (E : list event) : Prop :=
   E = [] \/
   (is_qskip q = true ->
-   (forall e, In e E -> is_contact e = false) /\ find_resmod E = Some (200, 0)).
+   (forall e, In e E -> is_contact e = false) /\
+   (is_qhijack q = true \/ find_resmod E = Some (200, 0))).
 
 Lemma cl_skip_ex_iff q E : cl_skip_ex q E = true <-> P_skip_ex q E.
 Proof.
@@ -260,16 +261,18 @@ Proof.
   assert (Hc : cl_skip_ex q E =
                (if is_qskip q
                 then negb (existsb is_contact E)
-                     && match find_resmod E with Some (st, w) => Nat.eqb st 200 && Nat.eqb w 0 | None => false end
+                     && (is_qhijack q
+                         || match find_resmod E with Some (st, w) => Nat.eqb st 200 && Nat.eqb w 0 | None => false end)
                 else true)).
   { subst E. reflexivity. }
   rewrite Hc. destruct (is_qskip q).
-  - rewrite andb_true_iff, not_exists_iff. split.
+  - rewrite andb_true_iff, not_exists_iff, orb_true_iff. split.
     + intros [H1 H2]. right. intros _. split; [exact H1|].
+      destruct H2 as [H2|H2]; [left; exact H2|right].
       destruct (find_resmod E) as [[st w]|]; [|discriminate H2].
       apply andb_true_iff in H2. destruct H2 as [Ha Hb]. apply Nat.eqb_eq in Ha, Hb. subst. reflexivity.
     + intros [H|H]; [subst E; discriminate H|]. destruct (H eq_refl) as [H1 H2].
-      split; [exact H1|]. rewrite H2. reflexivity.
+      split; [exact H1|]. destruct H2 as [H2|H2]; [left; exact H2|right]. rewrite H2. reflexivity.
   - split; [intros _; right; discriminate|reflexivity].
 Qed.
 
